@@ -49,7 +49,7 @@ func WithDebug(f func(format string, arg ...any)) Option {
 // The ctx is used while reading the initial ClientHello only. It is not used
 // after New returns.
 func NewConn(ctx context.Context, conn net.Conn, options ...Option) (outConn *Conn, err error) {
-	defer convertErrorsToAlerts(conn, err)
+	defer func() { convertErrorsToAlerts(conn, err) }()
 	done := make(chan struct{})
 	defer close(done)
 	go func() {
